@@ -7,6 +7,7 @@ import (
 	"io"
 	"net/http"
 	"net/url"
+	"os"
 	"strconv"
 	"strings"
 	"time"
@@ -185,6 +186,9 @@ func (c *captureClient) Do(r *http.Request) (*http.Response, error) {
 		}
 		c.body = b
 	}
+	if os.Getenv("SIGV4_DEBUG") != "" {
+		fmt.Fprintf(os.Stderr, "SDK request: %s %s\n  headers: %v\n  body: %q\n", r.Method, r.URL.String(), r.Header, c.body)
+	}
 	return &http.Response{StatusCode: 200, Status: "200 OK", Proto: "HTTP/1.1", ProtoMajor: 1, ProtoMinor: 1,
 		Header: http.Header{}, Body: io.NopCloser(bytes.NewReader(nil)), Request: r}, nil
 }
@@ -258,7 +262,14 @@ func (e *env) buildSigned(s *shape, now time.Time) (*wireReq, error) {
 		return nil, fmt.Errorf("unsupported method %q", s.Method)
 	}
 	body := []byte(bodyText[s.Body])
-	secure := s.Payload == "stream_unsigned_trailer"
+	// the S3 client signs the payload over plain HTTP and leaves it unsigned over TLS: with the
+	// default checksum setting it then streams aws-chunked with a checksum trailer, with
+	// "when_required" it sends the body as is with UNSIGNED-PAYLOAD
+	secure := s.Auth == "header" && (s.Payload == "stream_unsigned_trailer" || s.Payload == "unsigned")
+	checksums := aws.RequestChecksumCalculationWhenSupported
+	if s.Auth == "header" && s.Payload == "unsigned" {
+		checksums = aws.RequestChecksumCalculationWhenRequired
+	}
 	endpoint := e.plain.URL
 	if secure {
 		endpoint = e.secure.URL
@@ -276,15 +287,15 @@ func (e *env) buildSigned(s *shape, now time.Time) (*wireReq, error) {
 	}
 	cc := &captureClient{}
 	apiOpts := []func(*middleware.Stack) error{extras(query, headers)}
-	if s.Payload == "unsigned" && s.Auth == "header" {
-		apiOpts = append(apiOpts, v4.SwapComputePayloadSHA256ForUnsignedPayloadMiddleware)
-	}
 	cl := s3.New(s3.Options{
 		Region:       region,
 		BaseEndpoint: aws.String(endpoint),
 		UsePathStyle: true,
 		Credentials:  aws.CredentialsProviderFunc(func(context.Context) (aws.Credentials, error) { return aws.Credentials{AccessKeyID: s.Signer, SecretAccessKey: secret}, nil }),
 		Retryer:      aws.NopRetryer{},
+		// the defaults config.LoadDefaultConfig gives every standard client
+		RequestChecksumCalculation: checksums,
+		ResponseChecksumValidation: aws.ResponseChecksumValidationWhenSupported,
 		HTTPClient:   cc,
 		HTTPSignerV4: sw,
 		APIOptions:   apiOpts,
@@ -314,6 +325,12 @@ func (e *env) buildSigned(s *shape, now time.Time) (*wireReq, error) {
 			w.host = r.URL.Host
 		}
 		w.body = cc.body
+		wantSha := map[string]string{"signed": sha256Hex(body), "unsigned": "UNSIGNED-PAYLOAD",
+			"stream_signed": shaOfMode["stream_signed"], "stream_signed_trailer": shaOfMode["stream_signed_trailer"],
+			"stream_unsigned_trailer": "STREAMING-UNSIGNED-PAYLOAD-TRAILER"}[s.Payload]
+		if got := w.header.Get("X-Amz-Content-Sha256"); got != wantSha {
+			return nil, fmt.Errorf("payload mode %q: the SDK declared x-amz-content-sha256 %q", s.Payload, got)
+		}
 		switch s.Payload {
 		case "stream_signed", "stream_signed_trailer":
 			w.body = sw.encoded
